@@ -104,15 +104,15 @@ def scanLineStart : List Char → Bool
 
 /-- `should_lstrip_block(flag, marker, prefix)`; `preRev` is the prefix reversed -/
 def shouldLstrip (flag : Bool) (marker : Marker) (preRev : List Char) : Bool :=
-  if flag && marker != .var then scanLineStart preRev
-  else marker == .lineStmt || marker == .lineComment
+  if (flag && marker != .var) || marker == .lineStmt || marker == .lineComment then scanLineStart preRev
+  else false
 
 /-- `skip_newline_if_trim_blocks`: number of characters skipped -/
 def nlLen : List Char → Nat
-  | '\r' :: '\n' :: _ => 2
-  | '\r' :: _ => 1
-  | '\n' :: _ => 1
-  | _ => 0
+  | [] => 0
+  | c :: r =>
+    if c = '\r' then (if r.head? = some '\n' then 2 else 1)
+    else if c = '\n' then 1 else 0
 
 /-- `skip_nl`: (was_nl || rest.is_empty(), skip) -/
 def skipNl (s : List Char) : Bool × Nat :=
@@ -222,18 +222,25 @@ def scanLine : Bool → List Char → Option Nat
       else if isIdentStart c then (scanLine true r).map (· + 1)
       else none
 
+/-- the optional `-`/`+` in front of `endraw` (`skip_ws_control`) -/
+def stripMarkerIf (b : Bool) (s : List Char) : List Char :=
+  match b, s with
+  | true, c :: r => if c = '-' || c = '+' then r else s
+  | _, _ => s
+
+/-- the optional `-`/`+` in front of the block end -/
+def takeMarker (p : List Char) : Ws × List Char :=
+  match p with
+  | c :: r => if c = '-' then (Ws.remove, r) else if c = '+' then (Ws.preserve, r) else (Ws.dflt, p)
+  | [] => (Ws.dflt, p)
+
 /-- `skip_basic_tag(block_str, name, block_end, skip_ws_control)` -/
 def skipBasicTag (s name be : List Char) (skipWsControl : Bool) : Option (Nat × Ws) :=
-  let p1 := match skipWsControl, s with
-    | true, c :: r => if c = '-' || c = '+' then r else s
-    | _, _ => s
-  let p2 := p1.dropWhile isAsciiWs
+  let p2 := (stripMarkerIf skipWsControl s).dropWhile isAsciiWs
   if startsWith name p2 then
     let p3 := (p2.drop name.length).dropWhile isAsciiWs
-    let (ws, p4) := match p3 with
-      | c :: r => if c = '-' then (Ws.remove, r) else if c = '+' then (Ws.preserve, r) else (Ws.dflt, p3)
-      | [] => (Ws.dflt, p3)
-    if startsWith be p4 then some (s.length - (p4.length - be.length), ws) else none
+    let wp := takeMarker p3
+    if startsWith be wp.2 then some (s.length - (wp.2.length - be.length), wp.1) else none
   else none
 
 def rawName : List Char := ['r', 'a', 'w']
@@ -387,16 +394,12 @@ def lexGo (cfg : Cfg) (d : Delims) (find : FindStart) : Nat → List Char → Li
     | .stop r => r
     | .next o pre' rest' tf' => (lexGo cfg d find fuel pre' rest' tf').prepend o
 
+/-- `if s.ends_with(c) { s = &s[..s.len() - 1] }` -/
+def dropLastIf (c : Char) (s : List Char) : List Char :=
+  if s.getLast? = some c then s.dropLast else s
+
 /-- `Tokenizer::new`: one trailing line break is cut off unless `keep_trailing_newline` -/
-def stripTrailingNl (s : List Char) : List Char :=
-  let r := s.reverse
-  let r1 := match r with
-    | '\n' :: t => t
-    | _ => r
-  let r2 := match r1 with
-    | '\r' :: t => t
-    | _ => r1
-  r2.reverse
+def stripTrailingNl (s : List Char) : List Char := dropLastIf '\r' (dropLastIf '\n' s)
 
 def prepare (cfg : Cfg) (src : List Char) : List Char :=
   if cfg.keep then src else stripTrailingNl src
